@@ -10,7 +10,7 @@ def run(run):
                 'object of the lattice whose extent is the model\'s')
     d = run.driver
     rng = run.rng
-    for tab, pc in lat.contexts(run, exh_quick=8, rand_quick=250, wide_quick=12, exh_thorough=11, nmax=8, mmax=8):
+    for tab, pc in lat.contexts(run, exh_quick=8, rand_quick=250, wide_quick=12, exh_thorough=13, nmax=8, mmax=8):
         if min(pc.n, pc.m) > 8:
             continue
         extra = {'objects': pc.objects, 'properties': pc.properties, 'bools': pc.bools}
